@@ -41,6 +41,10 @@ type Conn struct {
 	ReadCallAt   []int64 // virtual time of every Read call (attempt)
 	DeadlineSets int
 	Menu         func(max int) []int
+	// EOFWithData: the read that drains the inbox after the peer's FIN may return the bytes
+	// together with io.EOF (io.Reader allows it; crypto/tls does it when close_notify follows
+	// the data).  A read deviation.
+	EOFWithData bool
 }
 
 // Pipe creates a connected pair.
@@ -99,6 +103,9 @@ func (c *Conn) Read(p []byte) (int, error) {
 		c.BytesRead += n
 		c.ReadAt = append(c.ReadAt, vsched.NowNS())
 		c.ReadN = append(c.ReadN, n)
+		if c.EOFWithData && c.eof && len(c.inbox) == 0 && vsched.S.X.Choose(explore.KRead, 2) == 1 {
+			return n, io.EOF
+		}
 		return n, nil
 	case c.reset:
 		return 0, errors.New("read: connection reset by peer")
